@@ -28,7 +28,7 @@ pub fn drive_ts(seed: u64, nconf: usize, out: &str) -> serde_json::Value {
         // cycle: a full 24-bit mantissa (not a power of two, usually odd), or a small / dyadic one
         let cyc: i64 = match ci % 4 { 0 => (1 << 23) + rng.below(1 << 23) as i64, 1 => 1 + rng.below(4000) as i64,
                                        2 => 1 << (1 + rng.below(22)), _ => (1 << 16) + rng.below(1 << 20) as i64 };
-        let del: i64 = if rng.below(3) == 0 { 0 } else { 64 * rng.below(1 << 17) as i64 };
+        let del: i64 = match rng.below(6) { 0 | 1 => 0, 2 => -64 * rng.below(1 << 10) as i64, _ => 64 * rng.below(1 << 17) as i64 };   // also negative delays
         let mut rep: i64 = match rng.below(7) { 0 => -1, 1 => -2, 2 => 0, 3 => 1, 4 => -3, _ => 2 + rng.below(30) as i64 };
         // keep delay + cycle * (repeats + 2) inside the exactly representable range
         while rep > 0 && del + cyc * (rep + 3) >= (1 << 29) { rep /= 2; }
